@@ -30,8 +30,9 @@ from ..engine import (
     stmt_of,
     walk_no_nested,
 )
-from ..normal import nfunc
-from ..pat import find, find1, match, name_of
+from ..engine import _attach_parents, parent
+from ..normal import clone, nfunc, normalize
+from ..pat import Env, compile_pattern, find, find1, match, name_of, pmatch
 from ..report import Report
 
 SWEEP = "semantiva/data_processors/parametric_sweep_factory.py"
@@ -117,6 +118,389 @@ def _edges(test: ast.AST, atom) -> Set[str]:
                 out.add("F")
             if any("T" in x for x in subs):
                 out.add("T")
+    return out
+
+
+# ---------------------------------------------------------------------------------------------------------
+# value flow on a working copy of a normal form
+# ---------------------------------------------------------------------------------------------------------
+
+def _reach(g: CFG, starts, blocked=None, blocked_edges=None):
+    """CFG.reach that does not expand a start node that is itself blocked."""
+    blocked = set(blocked or ())
+    return g.reach([x for x in starts if x not in blocked], blocked=blocked, blocked_edges=set(blocked_edges or ()))
+
+
+def _sort_keywords(tree: ast.AST) -> ast.AST:
+    """Keyword arguments in name order (matching only: `f(a=1, b=2)` and `f(b=2, a=1)` are the same call)."""
+    for n in ast.walk(tree):
+        if isinstance(n, ast.Call) and len(n.keywords) > 1 and all(k.arg is not None for k in n.keywords):
+            n.keywords.sort(key=lambda k: k.arg)
+    return tree
+
+
+_KPAT: Dict[str, ast.AST] = {}
+
+
+def kmatch(pattern: str, node: Optional[ast.AST], env: Optional[Env] = None) -> Optional[Env]:
+    """pat.match insensitive to the order of keyword arguments."""
+    if node is None:
+        return None
+    if pattern not in _KPAT:
+        _KPAT[pattern] = _sort_keywords(clone(compile_pattern(pattern)))
+    e = Env(env or {})
+    return e if pmatch(_KPAT[pattern], _sort_keywords(clone(node)) if not getattr(node, "_ksorted", False) else node, e) else None
+
+
+def kany(patterns, node: Optional[ast.AST], env: Optional[Env] = None) -> Optional[Env]:
+    for p in patterns:
+        m = kmatch(p, node, env)
+        if m is not None:
+            return m
+    return None
+
+
+def _unloop_yield_from(fn: ast.AST) -> None:
+    """`yield from (E for T in I if C)` is the loop `for T in I: if C: yield E` (same steps, same laziness)."""
+    def blocks(n):
+        for f in ("body", "orelse", "finalbody"):
+            b = getattr(n, f, None)
+            if isinstance(b, list) and b and isinstance(b[0], ast.stmt):
+                yield b
+        for h in getattr(n, "handlers", []) or []:
+            yield h.body
+    todo = [fn]
+    while todo:
+        n = todo.pop()
+        for b in blocks(n):
+            for i, st in enumerate(b):
+                if isinstance(st, ast.Expr) and isinstance(st.value, ast.YieldFrom) and isinstance(st.value.value, ast.GeneratorExp):
+                    ge = st.value.value
+                    inner: ast.stmt = ast.Expr(value=ast.Yield(value=ge.elt))
+                    for gen in reversed(ge.generators):
+                        for c in reversed(gen.ifs):
+                            inner = ast.If(test=c, body=[inner], orelse=[])
+                        inner = ast.For(target=gen.target, iter=gen.iter, body=[inner], orelse=[])
+                    for x in ast.walk(inner):
+                        ast.copy_location(x, st)
+                        if isinstance(x, ast.Name) and x is not ge.elt and any(x is t for g2 in ge.generators for t in ast.walk(g2.target)):
+                            x.ctx = ast.Store()
+                    b[i] = inner
+                    st = inner
+                if not isinstance(st, FuncNode + (ast.ClassDef,)):
+                    todo.append(st)
+
+
+class Flow:
+    """Working copy of a (normal-form) function: calls with sorted keywords, `yield from <genexp>` as a loop,
+    a CFG without implicit exception edges, and *value expansion*: a local name read at a CFG node is replaced
+    by the right-hand sides of the definitions that reach that node (recursively, optionally only along the
+    paths of one scenario = a set of blocked branch edges).  What is left are parameters as they were at
+    entry, loop / comprehension variables and attribute reads: rules compare that expansion with the
+    documented expression, so locals, temporaries, merged / split assignments and statement order of
+    independent statements do not matter."""
+
+    def __init__(self, nf: ast.AST, post=None):
+        self.fn = clone(nf)
+        _unloop_yield_from(self.fn)
+        _sort_keywords(self.fn)
+        ast.fix_missing_locations(self.fn)
+        _attach_parents(self.fn)
+        self.fn._parent = parent(nf)  # type: ignore[attr-defined]
+        for n in ast.walk(self.fn):
+            n._ksorted = True  # type: ignore[attr-defined]
+        self.g = CFG(self.fn, may_raise=lambda p: set())
+        a = self.fn.args
+        self.params = {x.arg for x in a.posonlyargs + a.args + a.kwonlyargs} | ({a.vararg.arg} if a.vararg else set()) | ({a.kwarg.arg} if a.kwarg else set())
+        self.post = post or (lambda e: e)
+        self.defnodes: Dict[str, List[int]] = {}
+        for n in self.g.nodes:
+            for nm in self._defined(n):
+                self.defnodes.setdefault(nm, []).append(n.id)
+        self.mutated = {r for _s, r in mutation_sites(self.fn, {x.id for x in ast.walk(self.fn) if isinstance(x, ast.Name)})}
+        self._xcache: Dict[Tuple[int, int, frozenset], List[ast.AST]] = {}
+
+    @staticmethod
+    def _defined(n) -> Set[str]:
+        a = n.ast
+        if a is None:
+            return set()
+        tg: List[ast.AST] = []
+        if n.kind == "stmt" and isinstance(a, ast.Assign):
+            tg = list(a.targets)
+        elif n.kind == "stmt" and isinstance(a, (ast.AnnAssign, ast.AugAssign)):
+            tg = [a.target] if getattr(a, "value", None) is not None else []
+        elif n.kind == "for" and isinstance(a, ast.For):
+            tg = [a.target]
+        elif n.kind == "with" and isinstance(a, ast.With):
+            tg = [i.optional_vars for i in a.items if i.optional_vars is not None]
+        elif n.kind == "except" and isinstance(a, ast.ExceptHandler) and a.name:
+            return {a.name}
+        out = {x.id for t in tg for x in ast.walk(t) if isinstance(x, ast.Name) and isinstance(x.ctx, ast.Store)}
+        if n.kind == "stmt":
+            out |= {x.target.id for x in ast.walk(a) if isinstance(x, ast.NamedExpr) and isinstance(x.target, ast.Name)}
+        return out
+
+    # -- nodes ------------------------------------------------------------------------------------------
+    def nid(self, node: ast.AST) -> int:
+        ids = self.g.nodes_for(stmt_of(node))
+        if not ids:
+            raise AnalysisError(f"no CFG node for `{_u(stmt_of(node))[:80]}`")
+        return ids[0]
+
+    def reachable(self, be=frozenset()) -> Set[int]:
+        return set(self.g.reach([self.g.entry], blocked_edges=set(be)))
+
+    # -- reaching definitions along a scenario ------------------------------------------------------------
+    def rdefs(self, name: str, use: int, be=frozenset()) -> Tuple[List[int], bool]:
+        defs = self.defnodes.get(name, [])
+        if not defs:
+            return [], True
+        be = set(be)
+        live = self.reachable(frozenset(be))
+        out = []
+        for d in defs:
+            if d not in live:
+                continue
+            blocked = {o for o in defs if o != d and o != use}
+            starts = [t for t, l in self.g.succ[d] if (d, l) not in be and t not in blocked]  # reach() expands blocked starts
+            if use in self.g.reach(starts, blocked=blocked, blocked_edges=be):
+                out.append(d)
+        entry = self.g.entry not in defs and use in self.g.reach([self.g.entry], blocked={o for o in defs if o != use}, blocked_edges=be)
+        return out, entry
+
+    def _def_value(self, name: str, d: int) -> Optional[ast.AST]:
+        """The expression bound to *name* by definition node *d* (None: the name stands for itself, e.g. a loop variable)."""
+        n = self.g.nodes[d]
+        a = n.ast
+        if n.kind != "stmt":
+            return None
+        if isinstance(a, ast.AnnAssign) and isinstance(a.target, ast.Name):
+            return a.value
+        if isinstance(a, ast.Assign):
+            for t in a.targets:
+                if isinstance(t, ast.Name) and t.id == name:
+                    return a.value
+                if isinstance(t, (ast.Tuple, ast.List)):
+                    idx = [i for i, e in enumerate(t.elts) if isinstance(e, ast.Name) and e.id == name]
+                    if idx and not any(isinstance(e, ast.Starred) for e in t.elts):
+                        if isinstance(a.value, (ast.Tuple, ast.List)) and len(a.value.elts) == len(t.elts):
+                            return a.value.elts[idx[0]]
+                        return ast.Subscript(value=a.value, slice=ast.Constant(value=idx[0]), ctx=ast.Load())
+        return ast.Name(id=f"__opaque_{name}__", ctx=ast.Load())
+
+    def expand(self, e: ast.AST, at: int, be=frozenset(), keep: Iterable[str] = (), _depth: int = 0) -> List[ast.AST]:
+        """All expansions of expression *e* evaluated at CFG node *at* (see class doc)."""
+        be = frozenset(be)
+        key = (id(e), at, be, tuple(sorted(keep)))
+        if key in self._xcache:
+            return self._xcache[key]
+        bound: Set[str] = set()
+        for x in ast.walk(e):
+            if isinstance(x, ast.comprehension):
+                bound |= {t.id for t in ast.walk(x.target) if isinstance(t, ast.Name)}
+            elif isinstance(x, ast.Lambda):
+                bound |= {p.arg for p in x.args.args + x.args.kwonlyargs}
+        names = []
+        for x in ast.walk(e):
+            if isinstance(x, ast.Name) and isinstance(x.ctx, ast.Load) and x.id not in bound and x.id not in names and x.id not in keep and x.id in self.defnodes:
+                names.append(x.id)
+        choices: List[Tuple[str, List[Optional[ast.AST]]]] = []
+        for nm in names:
+            ds, entry = self.rdefs(nm, at, be)
+            alts: List[Optional[ast.AST]] = []
+            if entry and nm in self.params:
+                alts.append(None)
+            for d in ds:
+                v = self._def_value(nm, d)
+                if v is None:
+                    alts.append(None)
+                elif _depth > 12:
+                    alts.append(ast.Name(id=f"__opaque_{nm}__", ctx=ast.Load()))
+                elif nm in self.mutated and not isinstance(v, ast.Name):
+                    alts.append(ast.Name(id=f"__mutated_{nm}__", ctx=ast.Load()))
+                else:
+                    alts.extend(self.expand(v, d, be, keep, _depth + 1))
+            seen_d: Dict[str, Optional[ast.AST]] = {}
+            for x in alts:
+                seen_d.setdefault("" if x is None else ast.dump(x), x)
+            if seen_d:
+                choices.append((nm, list(seen_d.values())))
+        total = 1
+        for _nm, al in choices:
+            total *= len(al)
+        if total > 64:
+            raise AnalysisError(f"{getattr(self.fn, 'name', '?')}: `{_u(e)[:80]}` has {total} possible values (too many definitions reach it)")
+        results: List[ast.AST] = []
+
+        def rec(i: int, mapping: Dict[str, ast.AST]) -> None:
+            if i == len(choices):
+                results.append(self.post(_substitute(e, mapping, bound)))
+                return
+            nm, al = choices[i]
+            for x in al:
+                m2 = dict(mapping)
+                if x is not None:
+                    m2[nm] = x
+                rec(i + 1, m2)
+
+        rec(0, {})
+        for r in results:
+            for x in ast.walk(r):
+                x._ksorted = True  # type: ignore[attr-defined]
+        self._xcache[key] = results
+        self._keepalive = getattr(self, "_keepalive", []) + [e]
+        return results
+
+    # -- branch edges ---------------------------------------------------------------------------------------
+    def atom_on(self, atom, at: int, be=frozenset()):
+        """*atom* applied to a test as written or, failing that, to its expansion."""
+        def f(e: ast.AST) -> Optional[bool]:
+            r = atom(self.post(e))
+            if r is not None:
+                return r
+            try:
+                xs = self.expand(e, at, be)
+            except AnalysisError:
+                return None
+            rs = {atom(x) for x in xs}
+            return rs.pop() if len(rs) == 1 else None
+        return f
+
+    def edges(self, atom, be=frozenset()) -> Set[Tuple[int, str]]:
+        """Branch edges on which *atom* is guaranteed to hold."""
+        out: Set[Tuple[int, str]] = set()
+        for n in self.g.nodes:
+            if n.kind in ("if", "while") and n.part is not None:
+                for lab in _edges(n.part, self.atom_on(atom, n.id, be)):
+                    out.add((n.id, lab))
+        return out
+
+    def holds_at(self, expr: ast.AST, atom, be=frozenset()) -> bool:
+        """Whenever *expr* is evaluated, *atom* holds: its statement is reached only through guaranteeing branch
+        edges, or it sits in the guaranteeing arm of a conditional expression."""
+        st = stmt_of(expr)
+        at = self.nid(expr)
+        ge = self.edges(atom, be)
+        if ge:
+            seen = self.g.reach([self.g.entry], blocked_edges=set(be) | ge)
+            if at not in seen and not (isinstance(st, (ast.If, ast.While)) and False):
+                return True
+        child: ast.AST = expr
+        f = self.atom_on(atom, at, be)
+        while child is not st:
+            p = parent(child)
+            if p is None:
+                break
+            if isinstance(p, ast.IfExp) and child is not p.test:
+                lab = "T" if child is p.body else "F"
+                if lab in _edges(p.test, f):
+                    return True
+            if isinstance(p, ast.BoolOp) and child is not p.values[0]:
+                # `a and X`: X is evaluated only when a was true; `a or X`: only when a was false
+                before = p.values[:p.values.index(child)]
+                lab = "T" if isinstance(p.op, ast.And) else "F"
+                if any(lab in _edges(b, f) for b in before):
+                    return True
+            child = p
+        return False
+
+
+def _substitute(e: ast.AST, mapping: Dict[str, ast.AST], bound: Set[str]) -> ast.AST:
+    class S(ast.NodeTransformer):
+        def visit_Name(self, n):
+            if isinstance(n.ctx, ast.Load) and n.id in mapping and n.id not in bound:
+                return clone(mapping[n.id])
+            return n
+    return S().visit(clone(e))
+
+
+def _leaves(e: ast.AST, conds: Tuple = ()) -> List[Tuple[ast.AST, Tuple]]:
+    """Alternatives of a (nested) conditional expression with the (test, 'T'|'F') choices leading to each."""
+    if isinstance(e, ast.IfExp):
+        return _leaves(e.body, conds + ((e.test, "T"),)) + _leaves(e.orelse, conds + ((e.test, "F"),))
+    return [(e, conds)]
+
+
+def _merge_layers(fn: ast.AST, sources: Set[str]) -> Optional[List[str]]:
+    """The mappings layered into the dict that *fn* returns, in order (a later layer overwrites an earlier one);
+    None when the function body is not a straight-line composition of copies / updates of *sources*."""
+    env: Dict[str, List[str]] = {}
+
+    def val(e: ast.AST) -> Optional[List[str]]:
+        if isinstance(e, ast.Name):
+            return [e.id] if e.id in sources else (list(env[e.id]) if e.id in env else None)
+        if isinstance(e, ast.Dict):
+            out: List[str] = []
+            for k, v in zip(e.keys, e.values):
+                if k is not None:
+                    return None
+                x = val(v)
+                if x is None:
+                    return None
+                out += x
+            return out
+        if isinstance(e, ast.BinOp) and isinstance(e.op, ast.BitOr):
+            l, r = val(e.left), val(e.right)
+            return None if l is None or r is None else l + r
+        if isinstance(e, ast.Call):
+            fnm = dotted_name(e.func)
+            if fnm == "dict" and len(e.args) <= 1 and all(k.arg is None for k in e.keywords):
+                out = []
+                for x in list(e.args) + [k.value for k in e.keywords]:
+                    m = kmatch("_X_.items()", x)
+                    y = val(m["_X_"] if m else x)
+                    if y is None:
+                        return None
+                    out += y
+                return out
+            if isinstance(e.func, ast.Attribute) and e.func.attr == "copy" and not e.args and not e.keywords:
+                return val(e.func.value)
+        return None
+
+    def update(target: str, e: ast.AST) -> bool:
+        x = val(e)
+        if target not in env or x is None:
+            return False
+        env[target] = env[target] + x
+        return True
+
+    for st in fn.body:
+        if isinstance(st, ast.Expr) and isinstance(st.value, ast.Constant):
+            continue
+        if isinstance(st, ast.Return):
+            return val(st.value) if st.value is not None else None
+        if isinstance(st, (ast.Assign, ast.AnnAssign)) and getattr(st, "value", None) is not None:
+            tg = st.targets[0] if isinstance(st, ast.Assign) and len(st.targets) == 1 else getattr(st, "target", None)
+            x = val(st.value)
+            if not isinstance(tg, ast.Name) or x is None or tg.id in sources:
+                return None
+            env[tg.id] = x
+            continue
+        if isinstance(st, ast.AugAssign) and isinstance(st.op, ast.BitOr) and isinstance(st.target, ast.Name) and update(st.target.id, st.value):
+            continue
+        if isinstance(st, ast.Expr):
+            m = kmatch("_M_.update(_Y_)", st.value) or kmatch("_M_.update(**_Y_)", st.value)
+            if m and isinstance(m["_M_"], ast.Name) and update(m["_M_"].id, m["_Y_"]):
+                continue
+        if isinstance(st, ast.For):
+            m = (kmatch("for (_k_, _v_) in _Y_.items():\n    _M_[_k_] = _v_", st) or kmatch("for _k_ in _Y_:\n    _M_[_k_] = _Y_[_k_]", st)
+                 or kmatch("for _k_ in _Y_.keys():\n    _M_[_k_] = _Y_[_k_]", st))
+            if m and isinstance(m["_M_"], ast.Name) and update(m["_M_"].id, m["_Y_"]):
+                continue
+        return None
+    return None
+
+
+def _bind_args(call: ast.Call, names: List[str]) -> Optional[Dict[str, ast.AST]]:
+    """Arguments of *call* by parameter name (positional ones through *names*); None when it cannot be told."""
+    if any(isinstance(a, ast.Starred) for a in call.args) or any(k.arg is None for k in call.keywords) or len(call.args) > len(names):
+        return None
+    out = {n: a for n, a in zip(names, call.args)}
+    for k in call.keywords:
+        if k.arg in out:
+            return None
+        out[k.arg] = k.value
     return out
 
 
@@ -213,70 +597,187 @@ def run(repo: Repo, R: Report) -> None:
     R.undecided("numerical content of range variables and of expression values; the typed collection's own behaviour")
 
     # ------------------------------------------------------------------ D1
+    # Decided per *scenario* (combinatorial / by_position+broadcast / by_position without broadcast): the branch
+    # edges that are impossible in the scenario are blocked, and what every reachable `yield` produces - the loop
+    # it sits in and the yielded value, with locals expanded to their reaching definitions - is compared with the
+    # documented step sequence.
     r_it = R.rule("C03-D1-step-enumeration", "combinatorial: product over the sequences taken in plain sorted variable-name order, each step dict(zip(names, combo)); by_position: unequal lengths rejected unless broadcast, broadcast cycles seq[i % len(seq)] up to the longest, steps are positions 0..n-1", 7)
     it = repo.func(SWEEP, "_iterate_sweep")
+    if not it.args.args:
+        raise AnalysisError("_iterate_sweep: the sequences parameter was not found")
     seqs = it.args.args[0].arg
-    bc = next((a.arg for a in it.args.kwonlyargs if a.arg == "broadcast"), "broadcast")
-    prod = [c for c in calls_in(it) if call_name(c) in ("itertools.product", "product")]
-    ok_sorted = ok_align = ok_prod = ok_zip = False
-    names_src = None
-    if len(prod) == 1 and len(prod[0].args) == 1 and isinstance(prod[0].args[0], ast.Starred):
-        ok_prod = True
-        for sv in _defs(it, prod[0].args[0].value):
-            m = match(f"[{seqs}[_v_] for _v_ in _N_]", sv)
-            if m:
-                ok_align = True
-                names_src = m["_N_"]
-        for nv in _defs(it, names_src):
-            if match(f"sorted({seqs}.keys())", nv) or match(f"sorted({seqs})", nv):
-                ok_sorted = True
-        loop = next((a for a in ancestors(prod[0]) if isinstance(a, ast.For)), None)
-        if loop is not None and names_src is not None:
-            for y in [n for n in ast.walk(loop) if isinstance(n, ast.Yield)]:
-                m = match("dict(zip(_N_, _C_))", y.value, {"_N_": names_src})
-                if m and _u(m["_C_"]) == _u(loop.target):
-                    ok_zip = True
+    all_p = [a.arg for a in it.args.args + it.args.kwonlyargs]
+    bc = "broadcast" if "broadcast" in all_p else None
+    md = "mode" if "mode" in all_p else None
+    if bc is None or md is None:
+        raise AnalysisError("_iterate_sweep: mode / broadcast parameters not found (they are passed by keyword)")
+    F1 = Flow(nfunc(repo, SWEEP, "_iterate_sweep", copyprop="all", loops=True))
+    g1 = F1.g
+
+    def a_bypos(e: ast.AST) -> Optional[bool]:
+        if kmatch(f"{md} == 'by_position'", e) or kmatch(f"'by_position' == {md}", e) or kmatch(f"{md} != 'combinatorial'", e):
+            return True
+        if kmatch(f"{md} != 'by_position'", e) or kmatch(f"'by_position' != {md}", e) or kmatch(f"{md} == 'combinatorial'", e) or kmatch(f"'combinatorial' == {md}", e):
+            return False
+        return None
+
+    def a_bc(e: ast.AST) -> Optional[bool]:
+        if dotted_name(e) == bc or kmatch(f"{bc} is True", e) or kmatch(f"bool({bc})", e):
+            return True
+        if kmatch(f"{bc} is False", e):
+            return False
+        return None
+
+    def neg(atom):
+        return lambda e: (None if atom(e) is None else not atom(e))
+
+    E_bp, E_cb = F1.edges(a_bypos), F1.edges(neg(a_bypos))
+    E_b, E_nb = F1.edges(a_bc), F1.edges(neg(a_bc))
+    if not E_bp or not E_cb or not E_b or not E_nb:
+        raise AnalysisError("_iterate_sweep: the branches on mode / broadcast were not found")
+    SC_C, SC_PB, SC_PN = frozenset(E_bp), frozenset(E_cb | E_nb), frozenset(E_cb | E_b)
+    ynodes = [y for y in walk_no_nested(F1.fn) if isinstance(y, ast.Yield)]
+
+    def yields(sc) -> List[ast.Yield]:
+        live = F1.reachable(sc)
+        return [y for y in ynodes if F1.nid(y) in live]
+
+    def loop_of(y: ast.AST) -> Optional[ast.For]:
+        return next((a for a in ancestors(y) if isinstance(a, ast.For) and any(a is x for x in walk_no_nested(F1.fn))), None)
+
+    def unwrap(e: ast.AST) -> ast.AST:
+        m = kmatch("list(_X_)", e) or kmatch("tuple(_X_)", e)
+        return m["_X_"] if m and isinstance(m["_X_"], (ast.ListComp, ast.GeneratorExp, ast.Call)) else e
+
+    def is_seqs(e: Optional[ast.AST]) -> bool:
+        return isinstance(e, ast.Name) and e.id == seqs
+
+    def is_lengths(e: Optional[ast.AST]) -> bool:
+        """the lengths of all sequences, as a list / generator"""
+        e = unwrap(e) if e is not None else None
+        m = kany(["[len(_s_) for _s_ in _S_.values()]", "(len(_s_) for _s_ in _S_.values())", "[len(_S_[_k_]) for _k_ in _S_]", "(len(_S_[_k_]) for _k_ in _S_)",
+                  "[len(_s_) for (_k_, _s_) in _S_.items()]", "(len(_s_) for (_k_, _s_) in _S_.items())", "map(len, _S_.values())"], e)
+        return bool(m) and is_seqs(m["_S_"])
+
+    def is_max(e: Optional[ast.AST]) -> bool:
+        m = kmatch("max(_L_)", e)
+        return bool(m) and is_lengths(m["_L_"])
+
+    def is_any_length(e: Optional[ast.AST]) -> bool:
+        """one of the (equal) lengths: valid only behind the equal-length guard"""
+        m = kany(["_L_[_c_]", "min(_L_)", "max(_L_)"], e)
+        if m and is_lengths(m["_L_"]) and ("_c_" not in m or isinstance(m["_c_"], ast.Constant)):
+            return True
+        m = kmatch("len(next(iter(_S_.values())))", e)
+        return bool(m) and is_seqs(m["_S_"])
+
+    def is_sorted_names(e: Optional[ast.AST]) -> bool:
+        m = kany(["sorted(_S_.keys())", "sorted(_S_)", "sorted(list(_S_))", "sorted(list(_S_.keys()))", "sorted(set(_S_))"], e)
+        return bool(m) and is_seqs(m["_S_"])
+
+    def is_cycled(e: Optional[ast.AST]) -> bool:
+        """{name: seq cycled up to the longest length} for every sequence"""
+        m = kany(["{_k_: (_s_ if len(_s_) == _M_ else [_s_[_j_ % len(_s_)] for _j_ in range(_M_)]) for (_k_, _s_) in _S_.items()}",
+                  "{_k_: ([_s_[_j_ % len(_s_)] for _j_ in range(_M_)] if len(_s_) != _M_ else _s_) for (_k_, _s_) in _S_.items()}",
+                  "{_k_: ([_s_[_j_ % len(_s_)] for _j_ in range(_M_)] if len(_s_) < _M_ else _s_) for (_k_, _s_) in _S_.items()}",
+                  "{_k_: [_s_[_j_ % len(_s_)] for _j_ in range(_M_)] for (_k_, _s_) in _S_.items()}",
+                  "{_k_: (_S_[_k_] if len(_S_[_k_]) == _M_ else [_S_[_k_][_j_ % len(_S_[_k_])] for _j_ in range(_M_)]) for _k_ in _S_}",
+                  "{_k_: [_S_[_k_][_j_ % len(_S_[_k_])] for _j_ in range(_M_)] for _k_ in _S_}"], e)
+        return bool(m) and is_seqs(m["_S_"]) and is_max(m["_M_"])
+
+    def position_step(value: ast.AST, idx: str, broadcast_on: bool) -> bool:
+        """value == {name: <sequence of name>[idx]} over all names, the sequences being the given ones
+        (broadcast off) or the cycled ones (broadcast on)"""
+        m = kany([f"{{_v_: _Q_[_v_][{idx}] for _v_ in _Q_}}", f"{{_v_: _Q_[_v_][{idx}] for _v_ in _Q_.keys()}}", f"{{_v_: _q_[{idx}] for (_v_, _q_) in _Q_.items()}}"], value)
+        if m:
+            return is_cycled(m["_Q_"]) if broadcast_on else is_seqs(m["_Q_"])
+        if broadcast_on:  # cycling done while indexing, nothing materialised
+            m = kany([f"{{_v_: _S_[_v_][{idx} % len(_S_[_v_])] for _v_ in _S_}}", f"{{_v_: _q_[{idx} % len(_q_)] for (_v_, _q_) in _S_.items()}}"], value)
+            return bool(m) and is_seqs(m["_S_"])
+        return False
+
+    # combinatorial
+    ys = yields(SC_C)
+    ok_sorted = ok_align = ok_prod = ok_zip = bool(ys)
+    for y in ys:
+        lp = loop_of(y)
+        its = F1.expand(lp.iter, F1.nid(lp), SC_C) if lp is not None else []
+        vals = F1.expand(y.value, F1.nid(y), SC_C) if y.value is not None else []
+        if not its or not vals or not isinstance(lp.target, ast.Name):
+            ok_sorted = ok_align = ok_prod = ok_zip = False
+            continue
+        for x in its:
+            m = kmatch("itertools.product(*_A_)", x) or kmatch("product(*_A_)", x)
+            ok_prod = ok_prod and bool(m)
+            a = kany(["[_S_[_v_] for _v_ in _N_]", "(_S_[_v_] for _v_ in _N_)"], unwrap(m["_A_"])) if m else None
+            ok_align = ok_align and bool(a) and is_seqs(a["_S_"])
+            ok_sorted = ok_sorted and bool(a) and is_sorted_names(a["_N_"])
+            for v in vals:
+                z = kany(["dict(zip(_N_, _C_))", "{_k_: _x_ for (_k_, _x_) in zip(_N_, _C_)}"], v)
+                ok_zip = ok_zip and bool(z) and bool(a) and ast.dump(z["_N_"]) == ast.dump(a["_N_"]) and _u(z["_C_"]) == lp.target.id
     R.check(ok_sorted, r_it, SWEEP, "_iterate_sweep", "names = sorted(sequences.keys())", "variable names are not taken in plain sorted order (custom key / mapping order): the element sequence is permuted", it.lineno)
     R.check(ok_align, r_it, SWEEP, "_iterate_sweep", "seqs = [sequences[v] for v in names]", "sequences are not aligned with the sorted names", it.lineno)
     R.check(ok_prod, r_it, SWEEP, "_iterate_sweep", "itertools.product(*seqs)", "combinatorial steps are not the Cartesian product of the sorted sequences", it.lineno)
     R.check(ok_zip, r_it, SWEEP, "_iterate_sweep", "yield dict(zip(names, combo))", "a combinatorial step does not pair sorted names with the product tuple", it.lineno)
-    lens = find1(it, f"_L_ = [len(_s_) for _s_ in {seqs}.values()]")
-    if lens is None:
-        raise AnalysisError("_iterate_sweep: list of sequence lengths not found")
-    L = name_of(lens[1], "_L_")
-    g = CFG(it, may_raise=lambda p: set())
 
-    def eq_len(e: ast.AST) -> Optional[bool]:
-        if match(f"len(set({L})) != 1", e) or match(f"len(set({L})) > 1", e):
+    # by_position without broadcast: the equal-length guard
+    def a_equal(e: ast.AST) -> Optional[bool]:
+        m = kany(["len(_D_) != 1", "len(_D_) > 1", "len(_D_) >= 2", "1 != len(_D_)"], e)
+        pol = False
+        if not m:
+            m, pol = kany(["len(_D_) == 1", "len(_D_) <= 1", "len(_D_) < 2", "1 == len(_D_)"], e), True
+        if m:
+            d = kmatch("set(_L_)", m["_D_"]) or kany(["{len(_s_) for _s_ in _S_.values()}", "{len(_S_[_k_]) for _k_ in _S_}"], m["_D_"])
+            if d and (is_lengths(d.get("_L_")) if "_L_" in d else is_seqs(d["_S_"])):
+                return pol
+            return None
+        m = kany(["min(_L_) != max(_L_)", "max(_L_) != min(_L_)", "min(_L_) < max(_L_)", "max(_L_) > min(_L_)"], e)
+        if m and is_lengths(m["_L_"]):
             return False
-        if match(f"len(set({L})) == 1", e):
+        m = kany(["min(_L_) == max(_L_)", "max(_L_) == min(_L_)"], e)
+        if m and is_lengths(m["_L_"]):
             return True
-        if dotted_name(e) == bc:
-            return True  # the broadcast path is the documented alternative
         return None
 
-    pos_yields = [n.id for n in g.nodes if n.ast is not None and n.kind == "stmt" and any(isinstance(x, ast.Yield) and isinstance(x.value, ast.DictComp) for x in ast.walk(n.ast))]
-    holds, path, guards = returns_only_through(g, eq_len, targets=pos_yields)
-    R.check(holds and guards > 0 and bool(pos_yields), r_it, SWEEP, "_iterate_sweep", "by_position yields only after broadcast or the equal-length test", "positions are aligned although lengths differ and broadcast is off", it.lineno, path)
-    mism = [n for n in ast.walk(it) if isinstance(n, ast.If) and eq_len(n.test) is False]
-    ok = bool(mism) and isinstance(mism[0].body[-1], ast.Raise) and "ValueError" in _u(mism[0].body[-1])
-    R.check(ok, r_it, SWEEP, "_iterate_sweep", "unequal lengths raise ValueError", "unequal lengths are not rejected with ValueError", it.lineno)
-    mx = find1(it, f"_M_ = max({L})")
-    ok = False
-    if mx is not None:
-        M = name_of(mx[1], "_M_")
-        cyc = find(it, f"[_q_[_i_ % len(_q_)] for _i_ in range({M})]")
-        cnt = find(it, f"_K_ = {M}")
-        ok = bool(cyc) and bool(cnt)
+    ys = yields(SC_PN)
+    E_eq, E_ne = F1.edges(a_equal, SC_PN), F1.edges(neg(a_equal), SC_PN)
+    seen = g1.reach([g1.entry], blocked_edges=set(SC_PN) | E_eq)
+    leak = [F1.nid(y) for y in ys if F1.nid(y) in seen]
+    R.check(bool(ys) and bool(E_eq) and not leak, r_it, SWEEP, "_iterate_sweep", "by_position yields only after broadcast or the equal-length test", "positions are aligned although lengths differ and broadcast is off", it.lineno, g1.path_to(seen, leak[0]) if leak else [])
+    ve_raises = {n.id for n in g1.nodes if n.kind == "stmt" and isinstance(n.ast, ast.Raise) and n.ast.exc is not None and (call_name(n.ast.exc) if isinstance(n.ast.exc, ast.Call) else dotted_name(n.ast.exc)) == "ValueError"}
+    starts = [t for (nid_, lab) in E_ne for t, l in g1.succ[nid_] if l == lab]
+    open_starts = [s for s in starts if s not in ve_raises]
+    seen = g1.reach(open_starts, blocked=ve_raises, blocked_edges=set(SC_PN)) if open_starts else {}
+    escaped = [x for x in [g1.ret_exit, g1.exc_exit] + [F1.nid(y) for y in ynodes] if x in seen]
+    ok = bool(starts) and not escaped
+    R.check(ok, r_it, SWEEP, "_iterate_sweep", "unequal lengths raise ValueError", "unequal lengths are not rejected with ValueError", it.lineno, g1.path_to(seen, escaped[0]) if escaped else [])
+
+    # by_position with broadcast
+    ys = yields(SC_PB)
+    ok = bool(ys)
+    for y in ys:
+        lp = loop_of(y)
+        its = F1.expand(lp.iter, F1.nid(lp), SC_PB) if lp is not None else []
+        vals = F1.expand(y.value, F1.nid(y), SC_PB) if y.value is not None else []
+        ok = ok and bool(its) and bool(vals) and isinstance(lp.target, ast.Name)
+        for x in its:
+            m = kmatch("range(_K_)", x) or kmatch("range(0, _K_)", x)
+            ok = ok and bool(m) and is_max(m["_K_"])
+        for v in vals:
+            ok = ok and isinstance(lp.target, ast.Name) and position_step(v, lp.target.id, True)
     R.check(ok, r_it, SWEEP, "_iterate_sweep", "broadcast: seq[i % len(seq)] for i in range(max(len))", "broadcast does not cycle shorter sequences up to the longest one", it.lineno)
-    ok = False
-    for lp in [n for n in ast.walk(it) if isinstance(n, ast.For)]:
-        m = match("range(_K_)", lp.iter)
-        if m and isinstance(lp.target, ast.Name):
-            for y in [x for x in ast.walk(lp) if isinstance(x, ast.Yield)]:
-                if match(f"{{_v_: _Q_[_v_][{lp.target.id}] for _v_ in _Q_}}", y.value):
-                    kdefs = _defs(it, m["_K_"])
-                    ok = any(match(f"{L}[0]", d) for d in kdefs) or any(isinstance(d, ast.Name) for d in kdefs)
+    ys = yields(SC_PN)
+    ok = bool(ys)
+    for y in ys:
+        lp = loop_of(y)
+        its = F1.expand(lp.iter, F1.nid(lp), SC_PN) if lp is not None else []
+        vals = F1.expand(y.value, F1.nid(y), SC_PN) if y.value is not None else []
+        ok = ok and bool(its) and bool(vals) and isinstance(lp.target, ast.Name)
+        for x in its:
+            m = kmatch("range(_K_)", x) or kmatch("range(0, _K_)", x)
+            ok = ok and bool(m) and is_any_length(m["_K_"])
+        for v in vals:
+            ok = ok and isinstance(lp.target, ast.Name) and position_step(v, lp.target.id, False)
     R.check(ok, r_it, SWEEP, "_iterate_sweep", "for i in range(step_count): yield {var: sequences[var][i]}", "by_position steps are not the aligned positions in order", it.lineno)
 
     # ------------------------------------------------------------------ D2
@@ -285,92 +786,116 @@ def run(repo: Repo, R: Report) -> None:
     kw = [a.arg for a in mg.args.kwonlyargs] or [a.arg for a in mg.args.args]
     base_p = next((a for a in kw if "base" in a), kw[0] if kw else "base_kwargs")
     expr_p = next((a for a in kw if "expr" in a), kw[-1] if kw else "expression_outputs")
-    ok = False
-    m1 = find1(mg, f"_M_ = dict({base_p})") or find1(mg, f"_M_ = {base_p}.copy()") or find1(mg, f"_M_ = {{**{base_p}}}")
-    if m1 is not None:
-        M = name_of(m1[1], "_M_")
-        up = find1(mg, f"{M}.update({expr_p})")
-        rets = [n for n in walk_no_nested(mg) if isinstance(n, ast.Return)]
-        ok = up is not None and up[0].lineno > m1[0].lineno and len(rets) == 1 and dotted_name(rets[0].value) == M and not find(mg, f"{M}.update({base_p})")
-    else:
-        rets = [n for n in walk_no_nested(mg) if isinstance(n, ast.Return)]
-        ok = len(rets) == 1 and (match(f"{{**{base_p}, **{expr_p}}}", rets[0].value) is not None or match(f"{base_p} | {expr_p}", rets[0].value) is not None)
+    layers = _merge_layers(nfunc(repo, SWEEP, "_merge_call_parameters", copyprop="all"), {base_p, expr_p})
+    ok = layers == [base_p, expr_p]
     R.check(ok, r_m, SWEEP, "_merge_call_parameters", "merged = dict(base_kwargs); merged.update(expression_outputs)", "computed-by-expression values no longer take precedence over provided ones", mg.lineno)
 
     # ------------------------------------------------------------------ D3
+    # Each generated body is analysed on its normal form with value expansion: the element call is found by its
+    # role, and the parameters it receives are expanded back to the kwargs / step / class attributes they are
+    # computed from, so temporaries, statement order of independent statements and keyword order do not matter.
     r_v = R.rule("C03-D3-variants", "the three generated bodies (source, operation, probe) materialise, drop from-context keys, select provided kwargs by presence, iterate with the class' mode/broadcast, evaluate every expression on the step, merge, filter to the element's parameter names and call the element once per step in order; they agree with each other on these steps", 24)
     variants = variant_bodies(repo)
+    create_fn = repo.func(SWEEP, CREATE)
+    KEEP = ("_materialize_sequences", "_iterate_sweep", "_merge_call_parameters", "_publish_created_context")
     forms: Dict[str, Dict[str, str]] = {}
+    flows: Dict[str, Tuple[Flow, ast.For]] = {}
     for qn, f in variants:
         d: Dict[str, str] = {}
         S = "cls" if f.name == "_get_data" else "self"
         kwname = f.args.kwarg.arg if f.args.kwarg else "kwargs"
-        loop = next((n for n in walk_no_nested(f) if isinstance(n, ast.For) and isinstance(n.iter, ast.Call) and call_attr(n.iter) == "_iterate_sweep"), None)
+        FV = Flow(normalize(repo, repo.module(SWEEP), f, keep=KEEP, copyprop="all"))
+        gv = FV.g
+        body_calls = [c for c in ast.walk(FV.fn) if isinstance(c, ast.Call) and any(c is x for x in walk_no_nested(FV.fn))]
+        # the element call
+        if f.name == "_get_data":
+            els = [(c, m) for c in body_calls for m in [kmatch(f"{S}._element.get_data(**_P_)", c)] if m]
+        else:
+            data_p = f.args.args[1].arg
+            els = []
+            for c in body_calls:
+                m = kmatch(f"_I_.process({data_p}, **_P_)", c)
+                if m and all(isinstance(x, ast.Call) and dotted_name(x.func) == "self._element" for x in FV.expand(m["_I_"], FV.nid(c)) or [None]):
+                    els.append((c, m))
+        loop = None
+        if len(els) == 1:
+            loop = next((a for a in ancestors(els[0][0]) if isinstance(a, ast.For)), None)
+        if loop is None:
+            loop = next((n for n in walk_no_nested(FV.fn) if isinstance(n, ast.For) and any(call_attr(c) == "_iterate_sweep" or call_name(c) == "_iterate_sweep" for x in FV.expand(n.iter, FV.nid(n)) for c in ast.walk(x) if isinstance(c, ast.Call))), None)
         if loop is None:
             raise AnalysisError(f"{qn}: sweep loop not found")
-        mat = find1(f, f"(_SEQ_, _CR_) = _materialize_sequences(vars={S}._vars, params={kwname})")
-        R.check(mat is not None, r_v, SWEEP, qn, "_materialize_sequences(vars=S._vars, params=kwargs)", "sequences are not materialised from the class' variables and the call's parameters", f.lineno)
-        SEQ = name_of(mat[1], "_SEQ_") if mat else "__missing__"
-        d["materialise"] = _unify(mat[0] if mat else None, f)
-        pops = [lp for lp, _e in find(f, f"for _k_ in {S}._from_context_keys:\n    {kwname}.pop(_k_, None)")]
-        R.check(len(pops) == 1 and mat is not None and pops[0].lineno > mat[0].lineno, r_v, SWEEP, qn, "from-context keys are removed from kwargs after materialisation", "from-context sequences leak into the element's parameters (or are removed before being read)", f.lineno)
-        d["pop"] = _unify(pops[0] if pops else None, f)
-        bk = find1(f, f"_B_ = {{_n_: {kwname}[_n_] for _n_ in _BF_ if _n_ in {kwname}}}")
-        bk_any = find1(f, f"_B_ = {{_n_: {kwname}[_n_] for _n_ in _BF_ if _ANY_}}")
-        bf = name_of((bk or bk_any)[1], "_BF_") if (bk or bk_any) else None
-        create_fn = repo.func(SWEEP, CREATE)
-        bf_defs = [v for v in assigned_value(create_fn, bf)] if bf else []
-        if bk is not None and not (len(bf_defs) == 1 and isinstance(bf_defs[0], ast.BinOp) and isinstance(bf_defs[0].op, ast.BitOr)):
-            bk = None  # the filter set is not the factory's (required | optional) external names
-        R.check(bk is not None, r_v, SWEEP, qn, "base_kwargs = {n: kwargs[n] for n in base_kwargs_filter if n in kwargs}", "provided parameters are selected by value instead of by presence (an explicit None / falsy node parameter is dropped and the element's default is used)" if bk_any else "provided parameters are not selected from the call's kwargs by presence", (bk_any or bk or (f, {}))[0].lineno)
-        B = name_of((bk or bk_any)[1], "_B_") if (bk or bk_any) else "__missing__"
-        d["base_kwargs"] = _unify((bk or bk_any)[0] if (bk or bk_any) else None, f)
-        ok = match(f"_iterate_sweep({SEQ}, mode={S}._mode, broadcast={S}._broadcast)", loop.iter) is not None
-        R.check(ok, r_v, SWEEP, qn, "_iterate_sweep(sequences, mode=S._mode, broadcast=S._broadcast)", "a variant iterates with a different mode / broadcast than the sweep declares", loop.lineno)
-        d["iterate"] = _unify(loop.iter, f)
+        flows[qn] = (FV, loop)
         step = loop.target.id if isinstance(loop.target, ast.Name) else "__missing__"
-        eo = find1(loop, f"_E_ = {{_p_: _fn_(**{step}) for (_p_, _fn_) in {S}._compiled_exprs.items()}}")
-        R.check(eo is not None, r_v, SWEEP, qn, "expr_outputs = {p: fn(**step) for p, fn in S._compiled_exprs.items()}", "expressions are not all evaluated on this step's variable values", loop.lineno)
-        E = name_of(eo[1], "_E_") if eo else "__missing__"
-        d["exprs"] = _unify(eo[0] if eo else None, f)
-        mc = find1(loop, f"_C_ = _merge_call_parameters(base_kwargs={B}, expression_outputs={E})")
-        R.check(mc is not None, r_v, SWEEP, qn, "call_params = _merge_call_parameters(base_kwargs=base_kwargs, expression_outputs=expr_outputs)", "a variant merges provided and computed parameters differently", loop.lineno)
-        C = name_of(mc[1], "_C_") if mc else "__missing__"
-        d["merge"] = _unify(mc[0] if mc else None, f)
-        flt = find1(loop, f"_F_ = {{_k_: _v_ for (_k_, _v_) in {C}.items() if _k_ in {S}._allowed_names}}")
-        ok = flt is not None and mc is not None and flt[0].lineno > mc[0].lineno
-        R.check(ok, r_v, SWEEP, qn, "call_params filtered to S._allowed_names", "parameters are not filtered to the element's signature (or filtered by something else)", loop.lineno)
-        Fv = name_of(flt[1], "_F_") if flt else "__missing__"
-        d["filter"] = _unify(flt[0] if flt else None, f)
+        its = FV.expand(loop.iter, FV.nid(loop))
+        mi = [kmatch(f"_iterate_sweep(_SEQ_, broadcast={S}._broadcast, mode={S}._mode)", x) for x in its]
+        mats = [kmatch(f"_materialize_sequences(params={kwname}, vars={S}._vars)[0]", m["_SEQ_"]) if m else None for m in mi]
+        mat_calls = [c for c in body_calls if call_name(c) == "_materialize_sequences"]
+        ok = len(mat_calls) == 1 and bool(mats) and all(m is not None for m in mats)
+        R.check(ok, r_v, SWEEP, qn, "_materialize_sequences(vars=S._vars, params=kwargs)", "the sequences that are iterated are not the ones materialised from the class' variables and the call's parameters", f.lineno)
+        d["materialise"] = "|".join(sorted(_unify(m["_SEQ_"], FV.fn) for m in mi if m))
+        pops = [lp for lp in walk_no_nested(FV.fn) if isinstance(lp, ast.For) and kany([f"for _k_ in {S}._from_context_keys:\n    {kwname}.pop(_k_, None)", f"for _k_ in {S}._from_context_keys:\n    {kwname}.pop(_k_)" ], lp) is not None
+                and kmatch(f"for _k_ in {S}._from_context_keys:\n    {kwname}.pop(_k_)", lp) is None]
+        ok = len(pops) == 1 and len(mat_calls) == 1
+        if ok:
+            # popped on every path to the element call, and only after the sequences were materialised from kwargs
+            mat_id, pop_id = FV.nid(mat_calls[0]), FV.nid(pops[0])
+            ok = pop_id not in _reach(gv, [gv.entry], {mat_id}) and FV.nid(loop) not in _reach(gv, [gv.entry], {pop_id})
+        R.check(ok, r_v, SWEEP, qn, "from-context keys are removed from kwargs after materialisation", "from-context sequences leak into the element's parameters (or are removed before being read)", f.lineno)
+        d["pop"] = _unify(pops[0] if pops else None, FV.fn)
+        ok = bool(mi) and all(m is not None for m in mi)
+        R.check(ok, r_v, SWEEP, qn, "_iterate_sweep(sequences, mode=S._mode, broadcast=S._broadcast)", "a variant iterates with a different mode / broadcast than the sweep declares", loop.lineno)
+        d["iterate"] = "|".join(sorted(_unify(x, FV.fn) for x in its))
+        # parameters of the element call, expanded
+        P = els[0][1]["_P_"] if len(els) == 1 else None
+        pxs = FV.expand(P, FV.nid(els[0][0])) if P is not None else []
+        m_f = [kmatch(f"{{_k_: _v_ for (_k_, _v_) in _C_.items() if _k_ in {S}._allowed_names}}", x) for x in pxs]
+        m_c = [kmatch("_merge_call_parameters(base_kwargs=_B_, expression_outputs=_E_)", m["_C_"]) if m else None for m in m_f]
+        m_b = [kmatch(f"{{_n_: {kwname}[_n_] for _n_ in _BF_ if _n_ in {kwname}}}", m["_B_"]) if m else None for m in m_c]
+        m_b_any = [kmatch(f"{{_n_: {kwname}[_n_] for _n_ in _BF_ if _ANY_}}", m["_B_"]) if m else None for m in m_c]
+        m_e = [kmatch(f"{{_p_: _fn_(**{step}) for (_p_, _fn_) in {S}._compiled_exprs.items()}}", m["_E_"]) if m else None for m in m_c]
+        allm = lambda ms_: bool(ms_) and all(x is not None for x in ms_)
+        bfs = {name_of(m, "_BF_") for m in m_b_any if m}
+        bf = next(iter(bfs)) if len(bfs) == 1 else None
+        bf_defs = [v for v in assigned_value(create_fn, bf)] if bf else []
+        bk_ok = allm(m_b) and len(bf_defs) == 1 and isinstance(bf_defs[0], ast.BinOp) and isinstance(bf_defs[0].op, ast.BitOr)  # the factory's (required | optional) external names
+        R.check(bk_ok, r_v, SWEEP, qn, "base_kwargs = {n: kwargs[n] for n in base_kwargs_filter if n in kwargs}", "provided parameters are selected by value instead of by presence (an explicit None / falsy node parameter is dropped and the element's default is used)" if allm(m_b_any) and not allm(m_b) else "provided parameters are not selected from the call's kwargs by presence", loop.lineno)
+        d["base_kwargs"] = "|".join(sorted(_unify(m["_B_"], FV.fn) for m in m_c if m))
+        R.check(allm(m_e), r_v, SWEEP, qn, "expr_outputs = {p: fn(**step) for p, fn in S._compiled_exprs.items()}", "expressions are not all evaluated on this step's variable values", loop.lineno)
+        R.check(allm(m_c), r_v, SWEEP, qn, "call_params = _merge_call_parameters(base_kwargs=base_kwargs, expression_outputs=expr_outputs)", "a variant merges provided and computed parameters differently", loop.lineno)
+        R.check(allm(m_f), r_v, SWEEP, qn, "call_params filtered to S._allowed_names", "parameters are not filtered to the element's signature (or filtered by something else)", loop.lineno)
+        d["params"] = "|".join(sorted(_unify(x, FV.fn) for x in pxs))
         # element call once per step, appended in order
-        apps = [c for c in calls_in(loop) if call_attr(c) == "append"]
-        ok = len(apps) == 1 and not any(isinstance(x, (ast.If, ast.Continue, ast.Break)) for x in ast.walk(loop))
-        el = apps[0].args[0] if apps else None
-        el_ok = False
-        if isinstance(el, ast.Call):
-            if f.name == "_get_data":
-                el_ok = match(f"cls._element.get_data(**{Fv})", el) is not None
-            else:
-                data_p = f.args.args[1].arg
-                m = match(f"_I_.process({data_p}, **{Fv})", el)
-                if m:
-                    inst = name_of(m, "_I_")
-                    idefs = [n for n in loop.body if isinstance(n, ast.Assign) and dotted_name(n.targets[0]) == inst]
-                    el_ok = bool(idefs) and isinstance(idefs[0].value, ast.Call) and dotted_name(idefs[0].value.func) == "self._element"
-        R.check(ok and el_ok, r_v, SWEEP, qn, "results.append(<element>(**call_params)) once per step", "the wrapped processor is not applied exactly once per step, in step order, to the input data with the merged parameters", loop.lineno)
-        rets = [n for n in walk_no_nested(f) if isinstance(n, ast.Return)]
-        lst = dotted_name(apps[0].func.value) if apps else "__missing__"
+        apps = [c for c in body_calls if call_attr(c) == "append" and any(a is loop for a in ancestors(c))]
+        ok = len(els) == 1 and len(apps) == 1 and len(apps[0].args) == 1 and isinstance(apps[0].func.value, ast.Name)
+        lst = apps[0].func.value.id if ok else "__missing__"
+        if ok:
+            el_call = els[0][0]
+            ax = FV.expand(apps[0].args[0], FV.nid(apps[0]))
+            ok = apps[0].args[0] is el_call or (bool(ax) and all(ast.dump(x) == ast.dump(y) for x in ax for y in FV.expand(el_call, FV.nid(el_call))))
+            ok = ok and next((a for a in ancestors(el_call) if isinstance(a, (ast.For, ast.While))), None) is loop and next((a for a in ancestors(apps[0]) if isinstance(a, (ast.For, ast.While))), None) is loop
+            # every iteration appends: no path from the loop head back to it (or out of the loop) that skips the append
+            body_start = [t for t, l in gv.succ[FV.nid(loop)] if l == "T"]
+            seen = _reach(gv, body_start, {FV.nid(apps[0])})
+            ok = ok and FV.nid(loop) not in seen and gv.ret_exit not in seen and gv.exc_exit not in seen
+            ok = ok and not any(isinstance(x, ast.Break) for x in ast.walk(loop))
+            inits = [FV._def_value(lst, dn) for dn in FV.rdefs(lst, FV.nid(loop))[0]]
+            ok = ok and bool(inits) and all(v is not None and kany(["[]", "list()"], v) is not None for v in inits)
+            ok = ok and [s_ for s_, _r in mutation_sites(FV.fn, {lst})] == [apps[0]]
+        R.check(ok, r_v, SWEEP, qn, "results.append(<element>(**call_params)) once per step", "the wrapped processor is not applied exactly once per step, in step order, to the input data with the merged parameters", loop.lineno)
+        rets = [n for n in walk_no_nested(FV.fn) if isinstance(n, ast.Return)]
         is_probe = "Probe" in qn
+        rx = [x for r_ in rets for x in (FV.expand(r_.value, FV.nid(r_), keep=(lst,)) if r_.value is not None else [ast.Constant(value=None)])]
         if is_probe:
-            ok = len(rets) == 1 and dotted_name(rets[0].value) == lst
+            ok = bool(rx) and all(dotted_name(x) == lst for x in rx)
             what = "a probe sweep does not return the plain list of results in order"
         else:
-            ok = len(rets) == 1 and match(f"{S}._collection_output.from_list({lst})", rets[0].value) is not None
+            ok = bool(rx) and all(kmatch(f"{S}._collection_output.from_list({lst})", x) is not None for x in rx)
             what = "the typed collection is not built from the results in step order"
+        ok = ok and all(FV.nid(r_) not in _reach(gv, [gv.entry], {FV.nid(loop)}) for r_ in rets)
         R.check(ok, r_v, SWEEP, qn, "return " + ("results" if is_probe else "S._collection_output.from_list(results)"), what, f.lineno)
         forms[qn] = d
     names = list(forms)
-    for key in ("materialise", "pop", "base_kwargs", "iterate", "exprs", "merge", "filter"):
+    for key in ("materialise", "pop", "base_kwargs", "iterate", "params"):
         vals = {forms[n][key] for n in names}
         R.check(len(vals) == 1, r_v, SWEEP, CREATE, f"variants agree on step `{key}`", f"the generated source / operation / probe bodies differ in `{key}`", 0)
 
@@ -389,26 +914,64 @@ def run(repo: Repo, R: Report) -> None:
         raise AnalysisError("_materialize_sequences: (sequences, created) return not found")
     SQ, CRV = dotted_name(rets[0].value.elts[0]), dotted_name(rets[0].value.elts[1])
     vars_p = ms.args.kwonlyargs[0].arg if ms.args.kwonlyargs else "vars"
-    vloop = next((n for n in walk_no_nested(ms) if isinstance(n, ast.For) and match(f"{vars_p}.items()", n.iter) is not None), None)
-    var = vloop.target.elts[0].id if vloop is not None and isinstance(vloop.target, ast.Tuple) else "var"
-    spec = vloop.target.elts[1].id if vloop is not None and isinstance(vloop.target, ast.Tuple) else "spec"
-    st_c = find(ms, f"{CRV}[f'{{{var}}}_values'] = _X_", nested=False)
-    st_s = find(ms, f"{SQ}[{var}] = _X_")
-    ok = len(st_c) == 1 and len(st_s) == 1 and _u(st_c[0][1]["_X_"]) == _u(st_s[0][1]["_X_"]) and not [a for a in ancestors(st_c[0][0]) if isinstance(a, ast.If)]
+    vloop = next((n for n in walk_no_nested(ms) if isinstance(n, ast.For) and (match(f"{vars_p}.items()", n.iter) or match(vars_p, n.iter) or match(f"{vars_p}.keys()", n.iter))), None)
+    if vloop is None:
+        raise AnalysisError("_materialize_sequences: the loop over the sweep variables was not found")
+    if isinstance(vloop.target, ast.Tuple) and len(vloop.target.elts) == 2 and all(isinstance(e, ast.Name) for e in vloop.target.elts):
+        var, spec = vloop.target.elts[0].id, vloop.target.elts[1].id
+    elif isinstance(vloop.target, ast.Name):
+        var, spec = vloop.target.id, "__spec__"
+    else:
+        raise AnalysisError("_materialize_sequences: unexpected target of the loop over the sweep variables")
+    # the swept and the published sequence: one store each (a chained assignment counts for both), same value,
+    # and every iteration that completes performs both
+    F4 = Flow(nfunc(repo, SWEEP, "_materialize_sequences", copyprop="all"))
+    pairs = [(t, n) for n in walk_no_nested(F4.fn) if isinstance(n, ast.Assign) for t in n.targets]
+    st_c = [(t, n) for t, n in pairs if kmatch(f"{CRV}[f'{{{var}}}_values']", t) or kmatch(f"{CRV}[{var} + '_values']", t)]
+    st_s = [(t, n) for t, n in pairs if kmatch(f"{SQ}[{var}]", t)]
+    vl4 = next((n for n in walk_no_nested(F4.fn) if isinstance(n, ast.For) and _u(n.iter) == _u(vloop.iter)), None)
+    ok = len(st_c) == 1 and len(st_s) == 1 and vl4 is not None
+    if ok:
+        xc, xs = F4.expand(st_c[0][1].value, F4.nid(st_c[0][1])), F4.expand(st_s[0][1].value, F4.nid(st_s[0][1]))
+        ok = st_c[0][1] is st_s[0][1] or sorted(ast.dump(x) for x in xc) == sorted(ast.dump(x) for x in xs)
+        body_start = [t for t, l in F4.g.succ[F4.nid(vl4)] if l == "T"]
+        for _t, stn in (st_c[0], st_s[0]):
+            ok = ok and F4.nid(vl4) not in _reach(F4.g, body_start, {F4.nid(stn)})
     R.check(ok, r_p, SWEEP, "_materialize_sequences", "created[f'{var}_values'] = sequences[var] = seq_list for every variable", "the published sequence is not the one that is swept (or is missing for some variable kind)", ms.lineno)
     for qn, f in variants:
-        loop = next(n for n in walk_no_nested(f) if isinstance(n, ast.For) and isinstance(n.iter, ast.Call) and call_attr(n.iter) == "_iterate_sweep")
-        mat = find1(f, "(_SEQ_, _CR_) = _materialize_sequences(vars=_ANY_, params=_ANY_)")
-        CR = name_of(mat[1], "_CR_") if mat else "created"
-        pubs = find(f, f"_publish_created_context({CR}, _CTX_)")
-        ok = len(pubs) == 1 and pubs[0][0].lineno > loop.lineno and not [a for a in ancestors(pubs[0][0]) if isinstance(a, (ast.If, ast.Try)) and any(a2 is f for a2 in ancestors(a))]
+        FV, loop = flows[qn]
+        gv = FV.g
+        calls_v = [c for c in ast.walk(FV.fn) if isinstance(c, ast.Call) and any(c is x for x in walk_no_nested(FV.fn))]
+
+        def is_created(e: ast.AST, at: ast.AST) -> bool:
+            xs = FV.expand(e, FV.nid(at))
+            return bool(xs) and all(kmatch("_materialize_sequences(params=_ANY_, vars=_ANY_)[1]", x) is not None for x in xs)
+
+        pubs = [c for c in calls_v if call_name(c) == "_publish_created_context" and len(c.args) == 2 and is_created(c.args[0], c)]
+        after = [t for t, l in gv.succ[FV.nid(loop)] if l == "F"]
+        # every normal return after the sweep loop has handed the sequences over
+        ok = bool(pubs) and bool(after) and gv.ret_exit not in after and gv.ret_exit not in _reach(gv, after, {FV.nid(c) for c in pubs})
         if f.name == "_process_logic":
-            ok = ok and bool(find(f, f"self._last_created_sequences = {CR}"))
+            recs = [n for n in walk_no_nested(FV.fn) if isinstance(n, ast.Assign) and any(kmatch(f"self.{CREATED_ATTR}", t) for t in n.targets) and is_created(n.value, n)]
+            ok = ok and bool(recs) and gv.ret_exit not in _reach(gv, [gv.entry], {FV.nid(n) for n in recs})
         R.check(ok, r_p, SWEEP, qn, "_publish_created_context(created, <context>) after the loop", "materialised sequences are not handed to the run context by this variant", f.lineno)
     pc = repo.func(SWEEP, "_publish_created_context")
     cp, xp = pc.args.args[0].arg, pc.args.args[1].arg
-    w = find(pc, f"for (_k_, _v_) in {cp}.items():\n    {xp}.set_value(_k_, _v_)")
-    ok = bool(w) and not any(isinstance(n, ast.If) for n in ast.walk(w[0][0]))
+    FP = Flow(nfunc(repo, SWEEP, "_publish_created_context", copyprop="all"))
+    ok = False
+    for lp in [n for n in walk_no_nested(FP.fn) if isinstance(n, ast.For)]:
+        hdr = kmatch(f"for (_k_, _v_) in {cp}.items():\n    pass", ast.For(target=lp.target, iter=lp.iter, body=[ast.Pass()], orelse=[]))
+        hdr2 = kany([f"for _k_ in {cp}:\n    pass", f"for _k_ in {cp}.keys():\n    pass"], ast.For(target=lp.target, iter=lp.iter, body=[ast.Pass()], orelse=[]))
+        if hdr:
+            ws = [c for c in ast.walk(lp) if isinstance(c, ast.Call) and kmatch(f"{xp}.set_value(_k_, _v_)", c, hdr)]
+        elif hdr2:
+            ws = [c for c in ast.walk(lp) if isinstance(c, ast.Call) and kmatch(f"{xp}.set_value(_k_, {cp}[_k_])", c, hdr2)]
+        else:
+            continue
+        if ws:
+            body_start = [t for t, l in FP.g.succ[FP.nid(lp)] if l == "T"]
+            w_ids = {FP.nid(c) for c in ws}
+            ok = FP.nid(lp) not in _reach(FP.g, body_start, w_ids) and not any(isinstance(x, ast.Break) for x in ast.walk(lp))
     R.check(ok, r_p, SWEEP, "_publish_created_context", "every created key is written with set_value", "some <var>_values keys are not written", pc.lineno)
     r_np = R.rule("C03-D4-node-publication", "a node that publishes the processor's materialised sequences itself writes every (key, sequence) pair of processor._last_created_sequences into the payload's context after process(): the only pair it may skip is the node's own context key, and the only reason not to enter the loop is that nothing was materialised", 4)
     pqn = "_ProbeContextInjectorNode._process_single_item_with_context"
@@ -427,26 +990,46 @@ def run(repo: Repo, R: Report) -> None:
     # ------------------------------------------------------------------ D5
     r_y = R.rule("C03-D5-yaml-conversion", "YAML variable specs map to the documented spec classes and defaults: [a, b] of two numbers -> range with 10 steps; other lists and {values} -> sequence as given; {lo, hi, steps[, scale=linear][, endpoint=True]} -> range; {from_context: key}; the [a, b] shorthand is applied to the bare-list spelling only", 7)
     cv = repo.func(PREP, "_convert_var_specs")
-    vl = next((n for n in walk_no_nested(cv) if isinstance(n, ast.For) and isinstance(n.target, ast.Tuple)), None)
-    sp = vl.target.elts[1].id if vl is not None else "spec"
-    rs = [c for c in ast.walk(cv) if isinstance(c, ast.Call) and call_attr(c) == "RangeSpec"]
-    two = [c for c in rs if match(f"RangeSpec(lo=float({sp}[0]), hi=float({sp}[1]), steps=10)", c)]
+    FY = Flow(nfunc(repo, PREP, "_convert_var_specs", copyprop="all"))
+    vl = next((n for n in walk_no_nested(FY.fn) if isinstance(n, ast.For) and isinstance(n.target, ast.Tuple) and len(n.target.elts) == 2 and isinstance(n.target.elts[1], ast.Name)), None)
+    if vl is None:
+        raise AnalysisError("_convert_var_specs: the loop over (variable, spec) pairs was not found")
+    sp = vl.target.elts[1].id
+    calls_y = [c for c in ast.walk(FY.fn) if isinstance(c, ast.Call) and any(c is x for x in walk_no_nested(FY.fn))]
+
+    def y_is(call: ast.Call, e: Optional[ast.AST], *patterns: str) -> bool:
+        if e is None:
+            return False
+        xs = FY.expand(e, FY.nid(call))
+        return bool(xs) and all(kany(patterns, x) is not None for x in xs)
+
+    rs = [c for c in calls_y if call_attr(c) == "RangeSpec" or call_name(c) == "RangeSpec"]
+    two, full = [], []
+    for c in rs:
+        b = _bind_args(c, ["lo", "hi", "steps", "scale", "endpoint"])
+        if b is None or not {"lo", "hi", "steps"} <= set(b) <= {"lo", "hi", "steps", "scale", "endpoint"}:
+            continue
+        if (y_is(c, b["lo"], f"float({sp}[0])") and y_is(c, b["hi"], f"float({sp}[1])") and y_is(c, b["steps"], "10")
+                and ("scale" not in b or y_is(c, b["scale"], "'linear'")) and ("endpoint" not in b or y_is(c, b["endpoint"], "True"))):
+            two.append(c)
+        if (y_is(c, b["lo"], f"float({sp}['lo'])") and y_is(c, b["hi"], f"float({sp}['hi'])") and y_is(c, b["steps"], f"int({sp}['steps'])")
+                and y_is(c, b.get("scale"), f"{sp}.get('scale', 'linear')") and y_is(c, b.get("endpoint"), f"{sp}.get('endpoint', True)")):
+            full.append(c)
     R.check(len(two) == 1, r_y, PREP, "_convert_var_specs", "[a, b] -> RangeSpec(lo=a, hi=b, steps=10)", "the two-number shorthand is not a 10-step linear range from a to b", cv.lineno)
-    full = [c for c in rs if match(f"RangeSpec(lo=float({sp}['lo']), hi=float({sp}['hi']), steps=int({sp}['steps']), scale={sp}.get('scale', 'linear'), endpoint={sp}.get('endpoint', True))", c)]
     R.check(len(full) == 1 and len(rs) == 2, r_y, PREP, "_convert_var_specs", "{lo, hi, steps, scale='linear', endpoint=True} -> RangeSpec field by field", "range fields are swapped or documented defaults changed", cv.lineno)
     # the [a, b] shorthand is a property of the *bare list* spelling: where it is applied, the value tested is the
     # variable's own YAML value (the loop variable), not something unwrapped from a mapping such as {values: [a, b]}
-    gcv = CFG(cv, may_raise=lambda p: set())
     for c in two:
-        use = gcv.nodes_for(stmt_of(c))
-        rd = [d for u in use for d in reaching_defs(gcv, sp, u)]
-        bad_rd = [d for d in rd if d.kind != "for"]
-        R.check(bool(rd) and not bad_rd, r_y, PREP, "_convert_var_specs", "the two-number shorthand applies to the variable's own (bare list) value only", f"`{bad_rd[0].text() if bad_rd else sp}` re-binds the spec before the [a, b] shorthand is applied: an explicit sequence written as a mapping (values: [a, b]) is expanded to a 10-step range instead of being swept as given", bad_rd[0].line if bad_rd else cv.lineno)
-    ss = [c for c in ast.walk(cv) if isinstance(c, ast.Call) and call_attr(c) == "SequenceSpec"]
-    ok = len(ss) == 2 and {_u(c.args[0]) for c in ss if c.args} == {sp, f"{sp}['values']"}
+        ds, _entry = FY.rdefs(sp, FY.nid(c))
+        bad_rd = [FY.g.nodes[d_] for d_ in ds if FY.g.nodes[d_].kind != "for"]
+        R.check(bool(ds) and not bad_rd, r_y, PREP, "_convert_var_specs", "the two-number shorthand applies to the variable's own (bare list) value only", f"`{bad_rd[0].text() if bad_rd else sp}` re-binds the spec before the [a, b] shorthand is applied: an explicit sequence written as a mapping (values: [a, b]) is expanded to a 10-step range instead of being swept as given", bad_rd[0].line if bad_rd else cv.lineno)
+    ss = [c for c in calls_y if call_attr(c) == "SequenceSpec" or call_name(c) == "SequenceSpec"]
+    ss_args = [_bind_args(c, ["values"]) for c in ss]
+    ok = len(ss) == 2 and all(b is not None and set(b) == {"values"} for b in ss_args) and sorted(("bare" if y_is(c, b["values"], sp) else "mapping" if y_is(c, b["values"], f"{sp}['values']") else "?") for c, b in zip(ss, ss_args)) == ["bare", "mapping"]
     R.check(ok, r_y, PREP, "_convert_var_specs", "lists / {values} -> SequenceSpec(values as given)", "explicit sequences are transformed (sorted, deduplicated, ...)", cv.lineno)
-    fc = [c for c in ast.walk(cv) if isinstance(c, ast.Call) and call_attr(c) == "FromContext"]
-    ok = len(fc) == 1 and bool(fc[0].args) and any(f"{sp}['from_context']" in _u(v) for v in _defs(cv, fc[0].args[0]))
+    fc = [c for c in calls_y if call_attr(c) == "FromContext" or call_name(c) == "FromContext"]
+    fc_args = [_bind_args(c, ["key"]) for c in fc]
+    ok = len(fc) == 1 and fc_args[0] is not None and set(fc_args[0]) == {"key"} and y_is(fc[0], fc_args[0]["key"], f"{sp}['from_context']")
     R.check(ok, r_y, PREP, "_convert_var_specs", "{from_context: key} -> FromContext(key)", "from_context variables do not read the declared key", cv.lineno)
     pnc = repo.func(PREP, "preprocess_node_config")
     cc = next((c for c in calls_in(pnc) if call_name(c) == "ParametricSweepFactory.create"), None)
@@ -469,31 +1052,156 @@ def run(repo: Repo, R: Report) -> None:
     R.check(ok, r_y, PREP, "preprocess_node_config", "variables converted from the block's `variables` mapping", "sweep variables are not taken from derive.parameter_sweep.variables", pnc.lineno)
 
     # ------------------------------------------------------------------ D6
+    # Decided on the normal form (helpers inlined) with value expansion: every np.linspace / np.logspace call,
+    # wherever it was moved to, is looked at by the *role* of its arguments and by the branch conditions under
+    # which it is evaluated (if / elif, guard clauses and conditional expressions alike).
     r_mat = R.rule("C03-D6-materialisation-arguments", "linspace/logspace receive lo, hi, steps, endpoint in their roles; explicit sequences are taken as given; from_context reads params[key] behind the missing / non-sequence / empty guards", 5)
-    lin = [c for c in calls_in(ms) if call_name(c) == "np.linspace"]
-    ok = len(lin) == 1 and match(f"np.linspace({spec}.lo, {spec}.hi, {spec}.steps, endpoint={spec}.endpoint)", lin[0]) is not None
-    R.check(ok, r_mat, SWEEP, "_materialize_sequences", "np.linspace(spec.lo, spec.hi, spec.steps, endpoint=spec.endpoint)", "a linear range is not built from (lo, hi, steps, endpoint) in their roles", ms.lineno)
-    logs = [c for c in calls_in(ms) if call_name(c) == "np.logspace"]
-    ok = len(logs) == 2 and all(match(f"np.logspace(np.log10({spec}.lo), _H_, {spec}.steps)", c) for c in logs) and any(match(f"np.logspace(np.log10({spec}.lo), np.log10({spec}.hi), {spec}.steps)", c) for c in logs)
-    R.check(ok, r_mat, SWEEP, "_materialize_sequences", "np.logspace(log10(lo), log10(hi | adjusted), steps)", "a log range is not built from log10(lo), log10(hi), steps", ms.lineno)
-    ok = bool(find(nfunc(repo, SWEEP, "_materialize_sequences"), f"_X_ = list({spec}.values)"))  # normal form: helpers inlined
-    R.check(ok, r_mat, SWEEP, "_materialize_sequences", "seq_list = list(spec.values)", "explicit sequences are reordered / deduplicated", ms.lineno)
     params_p = ms.args.kwonlyargs[1].arg if len(ms.args.kwonlyargs) > 1 else "params"
-    fcb = next((n for n in ast.walk(ms) if isinstance(n, ast.If) and "FromContext" in _u(n.test)), None)
-    ok = fcb is not None
+    nms = nfunc(repo, SWEEP, "_materialize_sequences", copyprop="all")
+
+    def canon_spec(e: ast.AST) -> ast.AST:
+        """`vars[var]` is the variable's spec, however the loop is written"""
+        class T(ast.NodeTransformer):
+            def visit_Subscript(self, n):
+                self.generic_visit(n)
+                if kmatch(f"{vars_p}[{var}]", n):
+                    return ast.copy_location(ast.Name(id=spec, ctx=ast.Load()), n)
+                return n
+        return T().visit(e) if any(isinstance(x, ast.Subscript) for x in ast.walk(e)) else e
+
+    F6 = Flow(nms, post=canon_spec)
+    g6 = F6.g
+    KINDS = ("RangeSpec", "SequenceSpec", "FromContext")
+
+    def a_kind(kind: str):
+        def atom(e: ast.AST) -> Optional[bool]:
+            m = kmatch(f"isinstance({spec}, _K_)", e) or kmatch(f"type({spec}) is _K_", e) or kmatch(f"type({spec}) == _K_", e)
+            if not m:
+                return None
+            k = (dotted_name(m["_K_"]) or "").split(".")[-1]
+            if k == kind:
+                return True
+            return False if k in KINDS else None  # the three spec classes are unrelated: being one excludes the others
+        return atom
+
+    def a_linear(e: ast.AST) -> Optional[bool]:
+        if kmatch(f"{spec}.scale == 'linear'", e) or kmatch(f"'linear' == {spec}.scale", e) or kmatch(f"{spec}.scale != 'log'", e):
+            return True
+        if kmatch(f"{spec}.scale != 'linear'", e) or kmatch(f"{spec}.scale == 'log'", e) or kmatch(f"'log' == {spec}.scale", e):
+            return False
+        return None
+
+    def a_endpoint(e: ast.AST) -> Optional[bool]:
+        if kmatch(f"{spec}.endpoint", e) or kmatch(f"{spec}.endpoint is True", e) or kmatch(f"bool({spec}.endpoint)", e):
+            return True
+        if kmatch(f"{spec}.endpoint is False", e):
+            return False
+        return None
+
+    def neg6(atom):
+        return lambda e: (None if atom(e) is None else not atom(e))
+
+    def arg_is(call: ast.Call, e: Optional[ast.AST], *patterns: str) -> bool:
+        if e is None:
+            return False
+        xs = F6.expand(e, F6.nid(call))
+        return bool(xs) and all(kany(patterns, x) is not None for x in xs)
+
+    all_calls = [c for c in ast.walk(F6.fn) if isinstance(c, ast.Call) and any(c is x for x in walk_no_nested(F6.fn))]
+    lin = [c for c in all_calls if call_name(c) in ("np.linspace", "numpy.linspace")]
+    ok = bool(lin)
+    bad_c: Optional[ast.Call] = None
+    for c in lin:
+        b = _bind_args(c, ["start", "stop", "num", "endpoint"])
+        good = (b is not None and set(b) == {"start", "stop", "num", "endpoint"} and arg_is(c, b["start"], f"{spec}.lo") and arg_is(c, b["stop"], f"{spec}.hi")
+                and arg_is(c, b["num"], f"{spec}.steps") and arg_is(c, b["endpoint"], f"{spec}.endpoint") and F6.holds_at(c, a_linear))
+        if not good:
+            ok, bad_c = False, bad_c or c
+    R.check(ok, r_mat, SWEEP, "_materialize_sequences", "np.linspace(spec.lo, spec.hi, spec.steps, endpoint=spec.endpoint)", f"`{_u(bad_c)[:100]}`: a linear range is not built from (lo, hi, steps, endpoint) in their roles, for scale == 'linear' only" if bad_c is not None else "a linear range is not built from (lo, hi, steps, endpoint) in their roles", getattr(bad_c, "lineno", ms.lineno))
+    logs = [c for c in all_calls if call_name(c) in ("np.logspace", "numpy.logspace")]
+    n_end = n_open = 0
+    bad_c = None
+    for c in logs:
+        b = _bind_args(c, ["start", "stop", "num", "endpoint", "base"])
+        good = (b is not None and {"start", "stop", "num"} <= set(b) <= {"start", "stop", "num", "endpoint", "base"} and arg_is(c, b["start"], f"np.log10({spec}.lo)", f"numpy.log10({spec}.lo)")
+                and arg_is(c, b["num"], f"{spec}.steps") and ("endpoint" not in b or kmatch("True", b["endpoint"]) is not None) and ("base" not in b or kany(["10", "10.0"], b["base"]) is not None)
+                and F6.holds_at(c, neg6(a_linear)))
+        if good:
+            # the upper bound may be chosen by the branch the call sits in or by a conditional expression
+            at_end, at_open = F6.holds_at(c, a_endpoint), F6.holds_at(c, neg6(a_endpoint))
+            for x in F6.expand(b["stop"], F6.nid(c)):
+                for leaf, conds in _leaves(x):
+                    is_end = at_end or any(lab in _edges(t, a_endpoint) for t, lab in conds)
+                    is_open = at_open or any(lab in _edges(t, neg6(a_endpoint)) for t, lab in conds)
+                    if is_end and not is_open:
+                        good = good and kany([f"np.log10({spec}.hi)", f"numpy.log10({spec}.hi)"], leaf) is not None
+                        n_end += 1
+                    elif is_open and not is_end:
+                        n_open += 1  # the shrunk upper bound is numerical content (not decided)
+                    else:
+                        good = False
+        if not good:
+            bad_c = bad_c or c
+    R.check(bad_c is None and n_end >= 1 and n_open >= 1, r_mat, SWEEP, "_materialize_sequences", "np.logspace(log10(lo), log10(hi | adjusted), steps)", (f"`{_u(bad_c)[:100]}`: " if bad_c is not None else "") + "a log range is not built from log10(lo), log10(hi), steps (hi itself exactly when endpoint is set)", getattr(bad_c, "lineno", ms.lineno))
+    expl = [c for c in all_calls if kmatch("list(_X_)", c) and arg_is(c, c.args[0], f"{spec}.values")]
+    ok = bool(expl) and all(F6.holds_at(c, a_kind("SequenceSpec")) for c in expl)
+    R.check(ok, r_mat, SWEEP, "_materialize_sequences", "seq_list = list(spec.values)", "explicit sequences are reordered / deduplicated (or taken for another kind of variable)", ms.lineno)
+    # from_context: every path of a FromContext variable to the store sequences[var] = ... passes the guards
+    stores6 = [n for n in walk_no_nested(F6.fn) if isinstance(n, ast.Assign) and any(kmatch(f"{SQ}[{var}]", t) for t in n.targets)]
+    vl6 = next((n for n in walk_no_nested(F6.fn) if isinstance(n, ast.For) and (kmatch(f"{vars_p}.items()", n.iter) or kmatch(vars_p, n.iter) or kmatch(f"{vars_p}.keys()", n.iter))), None)
+    ok = len(stores6) == 1 and vl6 is not None
+    path: List[str] = []
     if ok:
-        raises = [n for n in ast.walk(fcb) if isinstance(n, ast.If) and n is not fcb and isinstance(n.body[-1], ast.Raise)]
-        tests = " | ".join(_u(r.test) for r in raises)
-        rd = find1(fcb, f"_V_ = {params_p}[{spec}.key]")
-        ok = f"{spec}.key not in {params_p}" in tests and rd is not None and f"isinstance({name_of(rd[1], '_V_')}, (str, bytes))" in tests and any(isinstance(r.test, ast.UnaryOp) and isinstance(r.test.op, ast.Not) and isinstance(r.test.operand, ast.Name) for r in raises)
-    R.check(ok, r_mat, SWEEP, "_materialize_sequences", "from_context: params[spec.key] with missing / non-sequence / empty guards", "a from_context variable is read without its guards (or from another key)", ms.lineno)
-    ok = any(isinstance(n, ast.If) and match(f"{spec}.scale == 'linear'", n.test) for n in ast.walk(ms)) and any(isinstance(n, ast.If) and match(f"{spec}.endpoint", n.test) for n in ast.walk(ms))
-    R.check(ok, r_mat, SWEEP, "_materialize_sequences", "branches on spec.scale and spec.endpoint", "scale / endpoint no longer select the materialisation", ms.lineno)
+        s_id = F6.nid(stores6[0])
+        SC_FC = frozenset(F6.edges(neg6(a_kind("FromContext"))))
+        V = [f"{params_p}[{spec}.key]"]
+        LV = V + [f"list({V[0]})", f"tuple({V[0]})"]
+
+        def a_present(e):
+            return True if kmatch(f"{spec}.key in {params_p}", e) else False if kmatch(f"{spec}.key not in {params_p}", e) else None
+
+        def a_string(e):
+            m = kmatch("isinstance(_X_, _T_)", e)
+            if m and kany(V, m["_X_"]) and {dotted_name(x) for x in (m["_T_"].elts if isinstance(m["_T_"], ast.Tuple) else [m["_T_"]])} == {"str", "bytes"}:
+                return True
+            return None
+
+        def a_sequence(e):
+            m = kmatch("isinstance(_X_, _T_)", e)
+            if m and kany(V, m["_X_"]) and (dotted_name(m["_T_"]) or "").split(".")[-1] == "Sequence":
+                return True
+            return None
+
+        def a_nonempty(e):
+            if kany(LV, e):
+                return True
+            m = kany(["len(_X_) == 0", "len(_X_) < 1", "0 == len(_X_)"], e)
+            if m and kany(LV, m["_X_"]):
+                return False
+            m = kany(["len(_X_) > 0", "len(_X_) != 0", "len(_X_) >= 1", "len(_X_)"], e)
+            if m and kany(LV, m["_X_"]):
+                return True
+            return None
+
+        starts = [t for t, l in g6.succ[F6.nid(vl6)] if l == "T"]
+        live = g6.reach(starts, blocked_edges=set(SC_FC))
+        ok = s_id in live
+        for atom in (a_present, neg6(a_string), a_sequence, a_nonempty):
+            ge = F6.edges(atom, SC_FC)
+            seen = g6.reach(starts, blocked_edges=set(SC_FC) | ge)
+            if not ge or s_id in seen:
+                ok = False
+                path = path or (g6.path_to(seen, s_id) if s_id in seen else [])
+        reads = [x for x in ast.walk(F6.fn) if isinstance(x, ast.Subscript) and kany(V, canon_spec(clone(x)))]
+        ok = ok and bool(reads) and all(F6.holds_at(x, a_kind("FromContext")) for x in reads)
+    R.check(ok, r_mat, SWEEP, "_materialize_sequences", "from_context: params[spec.key] with missing / non-sequence / empty guards", "a from_context variable is read without its guards (or from another key)", ms.lineno, path)
+    ok = bool(lin) and bool(logs) and all(F6.holds_at(c, a_kind("RangeSpec")) for c in lin + logs)
+    R.check(ok, r_mat, SWEEP, "_materialize_sequences", "branches on spec.scale and spec.endpoint", "ranges are materialised for a variable that is not a RangeSpec (or scale / endpoint no longer select the materialisation)", ms.lineno)
 
     # ------------------------------------------------------------------ D6 (element-preserving copy)
     r_seq = R.rule("C03-D6-sequence-as-given", "for every variable kind the list that is swept and published is a plain list(<source>) copy - of the np.linspace / np.logspace result, of spec.values, of params[spec.key] - so item i keeps its value, type and position (no array coercion, sort, dedup or mapping), and is not modified in place afterwards", 5)
     nms = nfunc(repo, SWEEP, "_materialize_sequences", copyprop="all")
-    stores = find(nms, f"{SQ}[{var}] = _X_")
+    stores = [(n, {"_X_": n.value}) for n in walk_no_nested(nms) if isinstance(n, ast.Assign) and any(match(f"{SQ}[{var}]", t) for t in n.targets)]  # a chained store counts
     kinds: Set[str] = set()
 
     def _flat(e: ast.AST) -> List[ast.AST]:
